@@ -538,7 +538,19 @@ def wire_spec(path):
                 frags.append([])
             frags[-1].append(name)
         return [Atom('chain'), frags]
-    return None
+    if any(pos is not None for _, _, pos in st):
+        return None      # GenericStrategy with positional predicates: counter packs are not modelled
+    # GenericStrategy, predicate-free: the steps as the parser and test(ignore_context=True) build them
+    steps = []
+    for i, (ax, name, pos) in enumerate(st):
+        test = Atom('any') if name == '*' else [Atom('name'), name]
+        if ax == 'dos':
+            steps.append([Atom('dos'), Atom('node')])
+            steps.append([Atom('child'), test])
+        else:
+            steps.append([Atom('desc' if ax == 'desc' else 'child'), test])
+    steps[0][0] = Atom('dos')
+    return [Atom('generic'), steps]
 
 
 def wire_items(case):
